@@ -380,7 +380,7 @@ def subscriptions(chk: Check) -> None:
             subj = la[1] if la is not None else subj
         elif isinstance(subj, ast.Name):
             r_ = prog.resolve(init.module, subj)
-            subj = r_[2] if isinstance(r_, tuple) and r_[0] == 'const' and len(r_) > 2 else subj
+            subj = r_[3] if isinstance(r_, tuple) and r_[0] == 'const' and len(r_) > 3 else subj
         if isinstance(subj, ast.Call) and norm(subj.func) == 're.compile' and subj.args and isinstance(subj.args[0], ast.Constant):
             pat = re.compile(subj.args[0].value)
             intents = {m: prog.fold(prog.module('process_comms'), v) for m, v in prog.cls('process_comms.Intent').attrs.items()}
@@ -406,7 +406,7 @@ def loop_communicator(chk: Check) -> None:
     prog = chk.prog
     lc = prog.cls('communications.LoopCommunicator')
     n = 0
-    for name, f in lc.vmethods.items():
+    for name, f in lc.emethods.items():
         if name in ('__init__', 'loop') or name.startswith('_'):
             continue
         f = prog.view(f)
